@@ -72,6 +72,7 @@ type RunCfg struct {
 	Workers    int
 	SolverBin  string
 	TimeoutMs  int
+	LiveTimeoutMs int
 	Thorough   bool
 	MaxPaths   int
 	LoopBound  int
@@ -90,7 +91,7 @@ func newExec(L *Loaded, s *Solver, cfg *RunCfg, run *HarnessRun, prefix []int, e
 		maxSteps: cfg.MaxSteps, loopBound: cfg.LoopBound, maxVisible: cfg.MaxVisible,
 		run: run, funcsRun: map[string]bool{}, sqlSeen: map[string]bool{},
 		axiomsDone: map[string]bool{}, world: map[string]interface{}{}, crashAt: -1,
-		thorough: cfg.Thorough,
+		thorough: cfg.Thorough, fullTimeout: cfg.TimeoutMs,
 	}
 	return e
 }
@@ -173,6 +174,23 @@ func (e *Exec) modelFor(extra *Term) (string, map[string]string) {
 		return r, e.model()
 	}
 	if r == "unknown" {
+		ns := e.solver.Fresh(e.fullTimeout)
+		r = ns.Check()
+		e.solver.Queries++
+		e.solver.Time += ns.Time
+		e.solver.Errors += ns.Errors
+		e.freshRetries++
+		if r == "sat" {
+			old := e.solver
+			e.solver = ns
+			m := e.model()
+			e.solver = old
+			ns.Close()
+			return r, m
+		}
+		ns.Close()
+	}
+	if r == "unknown" {
 		e.unknowns++
 		if e.run != nil {
 			e.run.noteUnknown(extra)
@@ -217,7 +235,7 @@ func runHarness(L *Loaded, fn *ssa.Function, cfg *RunCfg) *HarnessRun {
 		wg.Add(1)
 		go func(w int) {
 			defer wg.Done()
-			s := NewSolver(cfg.SolverBin, cfg.TimeoutMs)
+			s := NewSolver(cfg.SolverBin, cfg.LiveTimeoutMs)
 			if cfg.LogSMT != "" {
 				s.log, _ = os.Create(fmt.Sprintf("%s.%s.%d.smt2", cfg.LogSMT, fn.Name(), w))
 			}
@@ -460,6 +478,27 @@ func init() {
 	stubs[p+"verifBytesEq"] = func(e *Exec, th *Thread, c *CallCtx, a []Val) StubRes {
 		x, y := a[0].(*BytesV), a[1].(*BytesV)
 		return ret(tAnd(tEq(x.Nil, y.Nil), tEq(x.S, y.S)))
+	}
+	stubs[p+"verifCut"] = func(e *Exec, th *Thread, c *CallCtx, a []Val) StubRes {
+		if e.cuts == nil {
+			e.cuts = map[string]bool{}
+		}
+		e.cuts[constName(a[0])] = true
+		return ret(nil)
+	}
+	stubs[p+"verifIsSystemXattr"] = func(e *Exec, th *Thread, c *CallCtx, a []Val) StubRes {
+		u := a[0].(*Term)
+		return ret(tAnd(tNe(u, mkStr("")), tEq(tStrByteAt(u, mkInt(0)), mkBV(8, '_'))))
+	}
+	stubs[p+"verifConcat"] = func(e *Exec, th *Thread, c *CallCtx, a []Val) StubRes {
+		x, y := a[0].(*BytesV), a[1].(*BytesV)
+		return ret(&BytesV{Nil: tFalse, S: tStrConcat(x.S, y.S)})
+	}
+	stubs[p+"verifIsCounter"] = func(e *Exec, th *Thread, c *CallCtx, a []Val) StubRes {
+		b := a[0].(*BytesV)
+		n := a[1].(*Term)
+		x := toBlob(b.S)
+		return ret(tAnd(tNot(b.Nil), mkUF("jsonUint", SBool, x), tEq(mkUF("juint", SBV(64), x), n), tNe(x, mkStr(""))))
 	}
 	stubs[p+"verifSymbolic"] = func(e *Exec, th *Thread, c *CallCtx, a []Val) StubRes {
 		return ret(tTrue)
